@@ -408,10 +408,11 @@ def parse_mir_file(path, crate):
                 fns[name] = cur; curbb = None
             elif (line.startswith('const ') or line.startswith('static ') or line.startswith('promoted[')) and line.endswith('{'):
                 # constants / statics / promoteds:  "const NAME: TY = {"   "promoted[0] in fn: TY = {"
-                m = re.match(r'^(?:const |static (?:mut )?)?(.+?): (.+) = \{$', line)
-                if m:
-                    name = m.group(1)
-                    cur = MirFn(name, line); cur.crate = crate; cur.ret = m.group(2); cur.args = []
+                body = re.sub(r'^(?:const |static (?:mut )?)', '', line)[:-4]      # strip ' = {'
+                k = _top_colon(body)
+                if k > 0:
+                    name = body[:k]
+                    cur = MirFn(name, line); cur.crate = crate; cur.ret = body[k + 2:]; cur.args = []
                     fns[name] = cur; curbb = None
             continue
         cur.lines += 1
@@ -434,6 +435,19 @@ def parse_mir_file(path, crate):
         s = line.strip()
         if s: cur.blocks[curbb].append(s)
     return fns
+
+
+def _top_colon(s):
+    """index of the first ': ' outside <>, (), []"""
+    depth = 0; j = 0
+    while j < len(s):
+        c = s[j]
+        if c in '<([{': depth += 1
+        elif c in ')]}': depth -= 1
+        elif c == '>' and s[j - 1] != '-': depth -= 1
+        elif depth == 0 and s.startswith(': ', j): return j
+        j += 1
+    return -1
 
 
 def _split_fn_head(h):
